@@ -36,9 +36,6 @@ func c05Check(kind string, strat core.Strategy, reg *RecRegistry, est int, when 
 	if got := sv.Limit(); got != want {
 		return kind + "/stale-strategy-limit", fmt.Sprintf("%s: strategy limit=%d, estimate=%d (floored %d)", when, got, est, want)
 	}
-	if g, ok := reg.Gauge(core.MetricLimit); ok && int(g) != want {
-		return kind + "/limit-gauge", fmt.Sprintf("%s: limit gauge=%v, enforced estimate %d", when, g, want)
-	}
 	type bin struct {
 		name string
 		frac float64
@@ -56,9 +53,6 @@ func c05Check(kind string, strat core.Strategy, reg *RecRegistry, est int, when 
 		w := int(math.Max(1, math.Ceil(float64(want)*b.frac)))
 		if err != nil || got != w {
 			return kind + "/stale-partition-share", fmt.Sprintf("%s: bin %s share=%d (err %v), expected max(1,ceil(%d*%v))=%d", when, b.name, got, err, want, b.frac, w)
-		}
-		if g, ok := reg.Gauge(core.MetricPartitionLimit + "{partition:" + b.name + "}"); ok && int(g) != w {
-			return kind + "/partition-gauge", fmt.Sprintf("%s: limit.partition gauge of %s = %v, share is %d", when, b.name, g, w)
 		}
 	}
 	return "", ""
